@@ -28,7 +28,7 @@ pub fn def() -> PropDef {
         genome_len: 420,
         quick_cases: 60_000,
         thorough_cases: 2_000_000,
-        rule: "case = (decoder in {G1,G2} x {raw, 0x04, 0x02/0x03}, byte string of length 0..=140): valid encodings built from reference coordinates, then structured corruption (any of 256 prefixes, single-bit and single-byte flips, truncate/extend by 1..3, a coordinate replaced by c+q / q / q+1 / 2^256-1 / 0, halves of an Fq2 swapped, x/y swapped, y negated, encodings of another format or group, all-zero, all-0xFF, x carrying no point, twist points outside G2) and unstructured bytes with lengths weighted towards the format lengths +-1; oracle: independent decoder (length, prefix, every coordinate < q, curve equation or square test + parity, r*P = O for G2); Ok iff oracle valid, decoded point equals the oracle's, re-encoding equals the input, never a panic; run in release and dbg profiles; non-trivial = input is not the library's own encoding of a normalised point; distinct by (decoder, bytes)",
+        rule: "case = (decoder in {G1,G2} x {raw, 0x04, 0x02/0x03}, byte string of length 0..=256): valid encodings built from reference coordinates, then structured corruption (any of 256 prefixes, single-bit and single-byte flips, truncate/extend by 1..3 bytes or by whole 32-byte words / a second copy, a coordinate replaced by c+q / q / q+1 / 2^256-1 / 0, halves of an Fq2 swapped, x/y swapped, y negated, encodings of another format or group, all-zero, all-0xFF, x carrying no point, twist points outside G2) and unstructured bytes with lengths weighted towards the format lengths +-1; oracle: independent decoder (length, prefix, every coordinate < q, curve equation or square test + parity, r*P = O for G2); Ok iff oracle valid, decoded point equals the oracle's, re-encoding equals the input, never a panic; run in release and dbg profiles; non-trivial = input is not the library's own encoding of a normalised point; distinct by (decoder, bytes)",
         required,
         enumerate: Some(enumerate),
         enumerate_note: "all 256 prefix bytes x a valid body for each prefixed decoder; every length 0..=140 x {zero, 0xFF, patterned} x each decoder; every single-bit flip of valid encodings (quick: 1 per decoder, thorough: 8 per decoder) — these sub-spaces are exhaustive",
@@ -301,11 +301,20 @@ pub fn decoder_bytes(s: &mut Src, d: usize) -> (Vec<u8>, String) {
             (v, "byteflip".into())
         }
         4 => {
-            let n = 1 + s.choose(3);
+            // by 1..3 bytes, or by whole 32-byte words / a whole second encoding (word-wise parsers ignore surplus words)
+            let n = [1usize, 2, 3, 1, 2, 3, 32, 64, len, 33][s.choose(10)];
             if s.bool() {
                 v.truncate(len - n.min(len));
             } else if s.bool() {
-                v.extend(s.bytes(n));
+                if n == len && s.bool() {
+                    let copy = v.clone();
+                    v.extend(copy);
+                } else {
+                    v.extend(s.bytes(n));
+                }
+                if n >= 32 {
+                    return (v, "length-words".into());
+                }
             } else {
                 // drop from the front (prefix removed / shifted)
                 v.drain(..n.min(len));
